@@ -456,6 +456,17 @@ def generic_check(prop, tier, seed, cfg, replay=None):
                      "replay_cmd": f"python3 tools/check.py {prop} --replay <this file>"}
         if found is None and corr_error is None and hasattr(cfg, "search"):
             found = cfg.search(ctx, diffs)
+        if found is None:
+            # the model transcribes the code's own admissibility assertions (it returns None where the code rejects a call):
+            # a record on which the model predicts a result and the implementation panics is an admissible call that aborts
+            ip = next((d for d in diffs if d["kind"] == "ipanic"), None)
+            if ip is not None:
+                found = {"property": prop, "kind": "implementation-panic",
+                         "what": "the model (which carries the code's admissibility assertions) accepts this call and predicts a result; "
+                                 "the implementation panics",
+                         "records": [ip["record"].rsplit("#", 1)[0] + "#"], "observed": ip["record"][-300:], "profile": ip["profile"],
+                         "n_such_records": sum(1 for d in diffs if d["kind"] == "ipanic"),
+                         "replay_cmd": f"python3 tools/check.py {prop} --replay <this file>"}
         if found:
             rp = write_replay(prop, "search", found)
             print(f"VIOLATION property={prop} replay={rp}")
